@@ -11,8 +11,19 @@ Search (property oracle, independent of the model; works on the RAW snippet text
   * `<key>:<KEYWORD>` / `<key>-<KEYWORD>` for every dash-free keyword listed by the snippet, in lower / UPPER /
     mixed case -> `<property><between><keyword as listed><after>` (a listed function: the call as listed);
   * scopes: @@section may only produce raw snippets, @@property only property lines;
-  * random user tables: overriding and new keys (near-collisions made of repeated letters) reach the user's text.
-Tie: every case also goes through the Coq model of the whole pipeline (output string compared)."""
+  * random user tables: overriding and new keys (near-collisions made of repeated letters) reach the user's text;
+  * user VALUE snippets (harness/cssvalues_gen.py): `prop:alt1|alt2|..` whose first alternative has 1-5 tokens (keywords,
+    numbers with units, colours, strings, calls with 0-3 arguments nested once), with and without explicit fields, under
+    every syntax and both field callbacks.  The oracle reads only the snippet's SOURCE STRING with a tokenizer of its own:
+    the line is `<property><between><tokens separated by single blanks, call arguments by ", "><after>`, every leaf token
+    wrapped in a tabstop numbered 1..k in document order iff >= 2 alternatives and no explicit field; the
+    (index, placeholder) pairs handed to output.field are checked too (the only observable of the wrapping under the
+    library's default callback);
+  * user RAW snippets print their body, every line break included.  Known finding
+    c06:raw-linebreak-before-field-or-end: a line break immediately before a tabstop / at the end of the body is lost
+    (exactly that class, and only when the output is the body without those breaks; anything else is a violation).
+Tie: every case also goes through the Coq model of the whole pipeline (output string compared; for the value stream the
+callback events -- text and field invocations with offset, line, column -- of run/StyleEvents.v)."""
 import glob
 import json
 import os
@@ -20,6 +31,8 @@ import re
 
 import common
 import style_util as su
+import css_stream_util as cu
+import cssvalues_gen as vg
 from style_util import Cfg
 
 RE_PROP = re.compile(r'^([a-z-]+)(?:\s*:\s*([^\n\r;]+?);*)?$')
@@ -27,6 +40,7 @@ BETWEEN_AFTER = {'css': (': ', ';'), 'scss': (': ', ';'), 'less': (': ', ';'), '
                  'stylus': (' ', '')}
 SCOPES = [None, '@@global', '@@section', '@@property']
 KEY_DIGIT_KW = 'c06:keyword-with-digit'
+KEY_RAW_LB = 'c06:raw-linebreak-before-field-or-end'
 
 
 # ---------------------------------------------------------------- reading the raw snippet text
@@ -128,27 +142,50 @@ def split_line(out, prop, between, after):
     return body
 
 
-def raw_text(body):
-    """what a raw body prints: line breaks (CR, LF, CRLF) become the configured newline (default "\\n", no base indent); a
-    trailing line break does not start another line"""
-    lines = re.split(r'\r\n|\r|\n', body)
-    if lines and lines[-1] == '':
-        lines.pop()
-    return '\n'.join(lines)
+def raw_text(body, tabstop=True):
+    """what a raw body must print: line breaks (CR, LF, CRLF) become the configured newline (default "\\n", no base
+    indent), every one of them; tabstops go through the field callback"""
+    return vg.raw_expected(body, tabstop)
+
+
+def raw_text_lossy(body, tabstop=True):
+    """what the implementation prints for the listed finding: a literal segment loses the line break it ends with"""
+    return vg.raw_expected(body, tabstop, lossy=True)
+
+
+class Finding:
+    """an oracle verdict that belongs to a listed finding class (key) -- reported through ctx.property_failure(key, ..)"""
+
+    def __init__(self, key, why):
+        self.key = key
+        self.why = why
+
+    def __str__(self):
+        return self.why
+
+
+def raw_oracle(body, out, tabstop):
+    want = raw_text(body, tabstop)
+    if out == want:
+        return None
+    why = 'raw snippet: expected its body %r, got %r' % (want, out)
+    if vg.raw_in_finding_class(body) and out == raw_text_lossy(body, tabstop):
+        return Finding(KEY_RAW_LB, why)
+    return why
 
 
 def key_oracle(table, key, cfg, r):
-    """expand(key) under cfg (tabstop field) against the raw text of table[key]; None or a description"""
+    """expand(key) under cfg against the raw text of table[key]; None, a description, or a Finding"""
     if r[0] != 'ok':
         return 'expand raised %r' % (r,)
     out = r[1]
     between, after = BETWEEN_AFTER[cfg.syntax]
     kind = classify(table[key])
-    raws = [raw_text(v) for v in table.values() if classify(v)[0] == 'raw']
+    raws = [f(v, cfg.tabstop) for v in table.values() if classify(v)[0] == 'raw' for f in (raw_text, raw_text_lossy)]
     scope = cfg.context
     if scope == '@@section':
         if kind[0] == 'raw':
-            return None if out == raw_text(kind[1]) else 'raw snippet: expected its body %r, got %r' % (kind[1], out)
+            return raw_oracle(kind[1], out, cfg.tabstop)
         if out == '' or out in raws:
             return None
         return '@@section scope produced %r, which is not a raw snippet' % (out,)
@@ -158,17 +195,35 @@ def key_oracle(table, key, cfg, r):
                 return None
             return '@@property scope produced %r, which is not a property line' % (out,)
     if kind[0] == 'raw':
-        return None if out == raw_text(kind[1]) else 'raw snippet: expected its body %r, got %r' % (kind[1], out)
+        return raw_oracle(kind[1], out, cfg.tabstop)
     _, prop, alts = kind
     val = split_line(out, prop, between, after)
     if val is None:
         return 'expected a line %r...%r, got %r' % (prop + between, after, out)
     if not alts:
-        if re.fullmatch(r'\$\{\d+\}', val):
+        if re.fullmatch(r'\$\{\d+\}', val) if cfg.tabstop else val == '':
             return None
         return 'no value listed: expected a tabstop, got %r' % (val,)
     if squash(plain(val)) != squash(plain(alts[0])):
         return 'expected the first listed value %r, got %r' % (alts[0], val)
+    return None
+
+
+def value_oracle(source, cfg, final, events):
+    """a user VALUE snippet: exact line and exact output.field invocations, both read off the source string"""
+    between, after = BETWEEN_AFTER[cfg.syntax]
+    short_hex = cfg.options.get('stylesheet.shortHex', True)
+    try:
+        want = vg.expected_line(source, between, after, cfg.tabstop, short_hex)
+        want_fields = vg.expected_fields(source, short_hex)
+    except vg.Unreadable as e:
+        return 'oracle cannot read the snippet %r: %s' % (source, e)
+    if final != want:
+        return 'snippet %r: expected %r, got %r' % (source, want, final)
+    if events is not None:
+        got = [(e[1], e[2]) for e in events if e[0] == 'field']
+        if got != want_fields:
+            return 'snippet %r: output.field must be called with %r, was called with %r' % (source, want_fields, got)
     return None
 
 
@@ -382,6 +437,9 @@ def shared_cache_scopes(ctx, cases):
             ctx.count_eval()
             ctx.cover('c06:shared-cache-across-scopes')
             bad = apply_check(check, cfg, r)
+            if isinstance(bad, Finding):
+                ctx.property_failure(bad.key, str(bad), {'input': s, 'config': cfg.to_json(), 'check': list(check[:1])})
+                continue
             if bad and not (fkey and ctx.match_known(fkey)):
                 ctx.property_failure('c06:shared-cache:%s:%s:%s' % (s1, cfg.context, s),
                                      'stylesheet expand(%r) under scope %r through a cache dict first used under scope %r: %s' % (s, cfg.context, s1, bad),
@@ -402,8 +460,13 @@ def run(ctx):
         'listed/lower/UPPER/two alternating cases (all for css, a rotating fifth for the other syntaxes in the quick tier); random user '
         'tables (1-3 overriding keys, 2-6 new keys incl. built-in keys with repeated letters and known score-1.0 collisions) with every '
         'user key and a sample of built-in keys; fuzzy abbreviations (character dropped/appended, keyword prefixes and acronyms) '
-        'under 4 configurations for the model tie only.  Oracle: raw snippet text vs output (see module docstring).  Tie: output string of the '
-        'Coq model.  Non-trivial: every case; distinct by (configuration, abbreviation).')
+        'under 4 configurations for the model tie only; user VALUE snippets (cssvalues_gen: 1-4 alternatives, first of 1-5 tokens over '
+        'keywords / numbers with units / #colours / strings / calls with 0-3 arguments nested once, with and without explicit fields, '
+        'irregular blanks) and RAW bodies with line breaks around tabstops, 40 (quick) / 400 (thorough) tables x {tabstop, identity} '
+        'callback, syntaxes css/scss/sass/less/stylus in rotation, scopes none/@@global/@@property, shortHex off in 15%%: exact line and '
+        'exact output.field invocations expected from the SOURCE STRING by the oracle\'s own tokenizer.  Oracle: raw snippet text vs '
+        'output (see module docstring).  Tie: output string of the Coq model; callback events for the value stream.  Non-trivial: every '
+        'case; distinct by (configuration, abbreviation).')
     cases = gen(ctx)
     pairs = [(c, s) for c, s, _, _, _ in cases]
     impl = su.impl_expand_many(pairs)
@@ -418,11 +481,13 @@ def run(ctx):
             r2 = su.impl_expand(s, cfg)          # fresh configuration, no shared cache
             bad = apply_check(check, cfg, r2)
             if bad:
-                key = fkey if fkey else 'c06:%s:%s' % (cfg.key(), s)
+                key = bad.key if isinstance(bad, Finding) else fkey if fkey else 'c06:%s:%s' % (cfg.key(), s)
+                bad = str(bad)
                 ctx.property_failure(key, 'stylesheet expand(%r) under %s: %s' % (s, cfg.to_json(), bad),
                                      {'input': s, 'config': cfg.to_json(), 'check': list(check[:1]) + [c for c in check[1:] if not isinstance(c, dict)],  # noqa
                                       'impl': repr(r2)[:300], 'why': bad})
     shared_cache_scopes(ctx, cases)
+    value_stream(ctx, ok, {syn: live_table(syn) for syn in VALUE_SYNTAXES})
     for (cfg, s, check, tag, fkey), r in list(zip(cases, impl))[-5:]:
         ctx.sample({'input': s, 'config': cfg.to_json(), 'impl': repr(r)[:160]})
     runner = su.ImplRunner()
@@ -439,10 +504,143 @@ def run(ctx):
                 dis += 1
                 if dis <= 5:
                     ctx.say('DISAGREE css expand %r under %s\n  impl  %r\n  model %r' % (s, cfg.to_json(), r, m))
-                    if not apply_check(check, cfg, r):
+                    v = apply_check(check, cfg, r)
+                    if not v or isinstance(v, Finding):
                         ctx.broken.append({'kind': 'correspondence', 'file': 'css-expand', 'input': s, 'config': cfg.to_json(),
                                            'impl': repr(r)[:300], 'model': repr(m)[:300]})
         ctx.cov['correspondence']['css_expand_full_model'] = {'cases': len(cases), 'disagreements': dis}
+
+
+# ---------------------------------------------------------------- user VALUE / RAW snippets
+VALUE_SYNTAXES = ['css', 'scss', 'sass', 'less', 'stylus']
+OVERRIDE_KEYS = ['m', 'p', 'bd', 'c', 'bg', 'trs', 'ff', 'd', 'pos', 'w', 'fz', 'bxsh']
+
+
+def rand_value_table(rng, base, size=None):
+    """a user table of value snippets (and a few raw bodies) under overriding and new keys -> {key: source}"""
+    t = {}
+    lows = set()
+    base_low = {k.lower() for k in base}
+    n = size or rng.randint(6, 10)
+    while len(t) < n:
+        r = rng.random()
+        if r < 0.2:
+            k = rng.choice(OVERRIDE_KEYS)
+        elif r < 0.35:
+            b = rng.choice(OVERRIDE_KEYS)
+            i = rng.randrange(len(b))
+            k = b[:i] + b[i] * rng.randint(1, 2) + b[i:]
+        else:
+            k = ''.join(rng.choice('abcdmpxzqv') for _ in range(rng.randint(2, 6)))
+        if k.lower() in lows or k == 'lg' or (k.lower() in base_low and k not in base):
+            continue
+        lows.add(k.lower())
+        if rng.random() < 0.15:
+            t[k] = rng.choice(vg.RAW_BODIES)
+        else:
+            t[k] = vg.gen_snippet(rng, canonical=rng.random() < 0.85)[0]
+    return t
+
+
+def value_cases(ctx, tables):
+    """[(cfg, key, source, kind, through the model?)]: the corpus and the first (large) tables also go through the model"""
+    rng = ctx.rng
+    quick = ctx.tier == 'quick'
+    cases = []
+    # corpus: user value/raw snippets of past failures, both callbacks
+    for o in corpus(ctx):
+        c0 = Cfg.from_json(o.get('config', {}))
+        if o['key'] in c0.snippets:
+            for tab in (True, False):
+                cfg = Cfg(c0.syntax, c0.options, c0.snippets, c0.context, tab)
+                src = c0.snippets[o['key']]
+                cases.append((cfg, o['key'], src, classify(src)[0], True))
+    n_model = 8 if quick else 40          # one conversion of the whole table inside Coq per configuration (2 per table)
+    n_tab = n_model + (32 if quick else 400)
+    for ti in range(n_tab):
+        syn = VALUE_SYNTAXES[ti % len(VALUE_SYNTAXES)]
+        user = rand_value_table(rng, tables[syn], 28 if ti < n_model else None)
+        opts = {}
+        if rng.random() < 0.15:
+            opts['stylesheet.shortHex'] = False
+        scope = rng.choice([None, None, None, '@@global', '@@property'])
+        for tab in (True, False):
+            cfg = Cfg(syntax=syn, options=opts, snippets=user, context=scope, tabstop=tab)
+            for k, src in user.items():
+                kind = classify(src)[0]
+                if kind == 'raw' and scope == '@@property':
+                    continue
+                cases.append((cfg, k, src, kind, ti < n_model))
+    return cases
+
+
+def value_stream(ctx, ok, tables):
+    quick = ctx.tier == 'quick'
+    cases = value_cases(ctx, tables)
+    caches = {}
+    results = []
+    for cfg, k, src, kind, _ in cases:
+        ck = cfg.key()
+        r = cu.impl_run(k, cu.cfg_user_config(cfg), cfg.tabstop, caches.setdefault(ck, {}))
+        results.append(r)
+        ctx.count_eval()
+        ctx.nontrivial((ck, k))
+        ctx.cover('c06:user-%s-snippet' % ('value' if kind == 'prop' else 'raw'))
+        ctx.cover('c06:syntax:' + cfg.syntax)
+        ctx.cover('c06:callback:' + ('tabstop' if cfg.tabstop else 'identity'))
+        if kind == 'prop':
+            try:
+                alts = vg.split_alts(vg.RE_SNIPPET.match(src).group(2))
+                toks = vg.read_tokens(alts[0], 0, '')[0] if alts[0].strip() else []
+                ctx.cover('c06:value:alts=%d' % min(len(alts), 4))
+                ctx.cover('c06:value:' + vg.shape(toks) + (',fields' if vg.toks_have_field(toks) else ''))
+            except Exception:
+                ctx.cover('c06:value:unreadable')
+        bad = value_verdict(cfg, k, src, kind, r)
+        if bad:
+            fresh = cu.impl_run(k, cu.cfg_user_config(cfg), cfg.tabstop, None)
+            bad = value_verdict(cfg, k, src, kind, fresh)
+            if bad:
+                key = bad.key if isinstance(bad, Finding) else 'c06:value:%s:%s' % (ck, k)
+                ctx.property_failure(key, 'stylesheet expand(%r) under %s: %s' % (k, cfg.to_json(), bad),
+                                     {'input': k, 'config': cfg.to_json(), 'check': ['value'], 'impl': repr(fresh[:2])[:300],
+                                      'why': str(bad)})
+    for (cfg, k, src, kind, _), r in list(zip(cases, results))[-3:]:
+        ctx.sample({'input': k, 'snippet': src, 'config': {'syntax': cfg.syntax, 'tabstop': cfg.tabstop}, 'impl': repr(r[1])[:160] if r[0] == 'ok' else repr(r)[:160]})
+    if not ok:
+        return
+    # the tie: callback events (hence the full string) of the model of the whole pipeline
+    chosen = [i for i, c in enumerate(cases) if c[4]]
+    seen = {cases[i][0].key() for i in chosen}
+    res = cu.coq_events(ctx, [(cases[i][0], cases[i][1]) for i in chosen], tag='c06-ev')
+    if res is None:
+        return
+    dis = 0
+    for i, mo in zip(chosen, res):
+        cfg, k, src, kind, _ = cases[i]
+        r = results[i]
+        if r[0] == 'ok':
+            same = mo == ('ok', cu.canon_events(r[2])) and ''.join(e[1] if e[0] == 'text' else e[2] for e in mo[1]) == r[1]
+        else:
+            same = r[0] == 'err' and mo[0] == 'err' and tuple(mo[1:]) == tuple(r[1:])
+        if not same:
+            dis += 1
+            if dis <= 5:
+                ctx.say('DISAGREE css events %r (snippet %r) under %s\n  impl  %r\n  model %r' % (
+                    k, src, cfg.to_json(), (r[1], cu.canon_events(r[2])[:12]) if r[0] == 'ok' else r, mo[1][:12] if mo[0] == 'ok' else mo))
+                v = value_verdict(cfg, k, src, kind, r)
+                if not v or isinstance(v, Finding):
+                    ctx.broken.append({'kind': 'correspondence', 'file': 'css-expand-events', 'input': k, 'config': cfg.to_json(),
+                                       'impl': repr(r[1:3])[:400], 'model': repr(mo)[:400]})
+    ctx.cov['correspondence']['css_value_snippets_events_model'] = {'cases': len(chosen), 'configurations': len(seen), 'disagreements': dis}
+
+
+def value_verdict(cfg, k, src, kind, r):
+    if r[0] != 'ok':
+        return 'expand raised %r' % (r,)
+    if kind == 'prop':
+        return value_oracle(src, cfg, r[1], r[2])
+    return raw_oracle(src, r[1], cfg.tabstop)
 
 
 def replay(ctx, obj):
@@ -452,6 +650,15 @@ def replay(ctx, obj):
         print('replay names a broken obligation, no input: %s' % rp)
         return 1
     cfg = Cfg.from_json(rp.get('config', {}))
+    if rp.get('check', [''])[0] == 'value':
+        src = cfg.snippets.get(s, '')
+        kind = classify(src)[0]
+        r = cu.impl_run(s, cu.cfg_user_config(cfg), cfg.tabstop, None)
+        bad = value_verdict(cfg, s, src, kind, r)
+        known = isinstance(bad, Finding) and ctx.match_known(bad.key)
+        print('css expand(%r) with snippet %r under %s -> %r : %s%s' % (s, src, {'syntax': cfg.syntax, 'tabstop': cfg.tabstop, 'context': cfg.context}, r[1] if r[0] == 'ok' else r,
+                                                                    bad or 'property holds', ' (listed finding %s)' % bad.key if known else ''))
+        return 1 if bad and not known else 0
     t = live_table(cfg.syntax, cfg.snippets)
     chk = rp.get('check', ['key'])
     if chk[0] == 'key':
@@ -461,5 +668,6 @@ def replay(ctx, obj):
         check = tuple(chk)
     r = su.impl_expand(s, cfg)
     bad = apply_check(check, cfg, r)
-    print('css expand(%r) under %s -> %r : %s' % (s, cfg.to_json(), r, bad or 'property holds'))
-    return 1 if bad else 0
+    known = isinstance(bad, Finding) and ctx.match_known(bad.key)
+    print('css expand(%r) under %s -> %r : %s%s' % (s, cfg.to_json(), r, bad or 'property holds', ' (listed finding %s)' % bad.key if known else ''))
+    return 1 if bad and not known else 0
